@@ -11,6 +11,8 @@ is single-threaded, so toggling a module global around one call is safe).
 import collections
 import glob
 import itertools
+import contextlib
+import io
 import math
 import os
 import random
@@ -272,6 +274,40 @@ def c17_worker(job, acc):
         acc.count("cases")
         acc.sig(("C17", "collect", n, im))
         acc.count("nontrivial")
+    # the tables of REAL projects (parser + builder + scheduler): the project's own size formula, the project table and
+    # every resource table agree, cover [start, end] and convert consistently - also when the window is no multiple of
+    # the resolution (seeded change C17-d: Project.scoreboardSize() took the floor)
+    import math as _math
+    from scriptplan.parser.tjp_parser import ProjectFileParser
+    lens = ["+1w", "+10d", "+3d", "+10110min", "+100h"]
+    for ri, rmin in enumerate(range(1, 61)):
+        if ri % W != w:
+            continue
+        for ln in (lens if tier == "thorough" else lens[ri % 2::2] + lens[:1]):
+            for im in av:
+                text = ('project p "P" 2025-03-03-0%d:00 %s {\n  timezone "Etc/UTC"\n  timingresolution %dmin\n}\nresource r "r" {}\n'
+                        'task a "a" {\n  effort 2h\n  allocate r\n}\n' % (ri % 3, ln, rmin))
+                try:
+                    with use(im), contextlib.redirect_stderr(io.StringIO()), contextlib.redirect_stdout(io.StringIO()):
+                        pr = ProjectFileParser().parse(text)
+                except Exception as e:
+                    acc.count("real-project-rejected:" + type(e).__name__)
+                    continue
+                acc.count("real-project-tables")
+                acc.count("cases")
+                acc.count("nontrivial")
+                acc.sig(("C17", "real", rmin, ln, im))
+                st, en, res_s = pr["start"], pr["end"], rmin * 60
+                want = _math.ceil((en - st).total_seconds() / res_s) + 1
+                with use(im):
+                    got = dict(project=pr.scoreboardSize(), table=pr.scoreboard.size if pr.scoreboard else None,
+                               resources=sorted({r.data[0].scoreboard.size for r in pr.resources if r.data and r.data[0].scoreboard is not None}))
+                    last = pr.idxToDate(pr.scoreboardSize() - 1)
+                    back = pr.dateToIdx(pr.idxToDate(want - 2))
+                if got["project"] != want or got["table"] != want or got["resources"] != [want]:
+                    acc.violation("C17", "real-project-table-size", dict(impl=im, res_min=rmin, length=ln, start=st, end=en, want=want, got=got), [], None)
+                elif last < en or back != want - 2:
+                    acc.violation("C17", "real-project-table-does-not-cover-window", dict(impl=im, res_min=rmin, length=ln, end=en, last_slot=last, roundtrip=back), [], None)
     acc.sample(dict(kind="window law", example=dict(resolution_s=420, window="2025-03-29 00:17 .. +1d7h13m", laws=["size=ceil(len/res)+1", "idx->time strictly increasing",
                "index(time(i))=i", "floor-inverse at +1s, +res/2, +res-1", "out-of-range index/instant rejected unless clamped"])), limit=1)
     acc.sample(dict(kind="collectIntervals", example=dict(pattern="0110111", window=[1, 6], min_slots=2, reference=ref_intervals([0, 1, 1, 0, 1, 1, 1], 7, 1, 6, 2))), limit=2)
